@@ -21,7 +21,7 @@ VERUS_UNITS = {
     },
     "lemmas": {
         "path": "units/verus/lemmas.vx",
-        "props": ["C01", "C03"],
+        "props": ["C01", "C03", "C05"],
         "configs": {"quick": [("spec", ["std", "alloc", "half"])], "thorough": [("spec", ["std", "alloc", "half"])]},
     },
     "io": {
